@@ -52,6 +52,8 @@ def run(prog: Program, rep: Report, tier: str) -> None:
     # D2
     funcs = [f for f in m.functions.values() if not f.is_lambda] + [prog.func('fggs.utils', 'singleton_hrg')]
     nc = check_fresh_names(rep, prog, 'C05-D2 fresh-name', funcs)
+    from ..rules.freshname import check_generators_once
+    check_generators_once(rep, prog, 'C05-D2 fresh-name one-shot', [prog.func('fggs.utils', 'unique_label_name')])
     rep.floor('C05-D2', nc, 2)
 
     # D3
